@@ -54,6 +54,13 @@ pub fn corpus() -> Vec<(&'static str, IncCfg, Vec<Op>)> {
     for _ in 0..3 { late.push(Op::NewEpoch); late.push(Op::Snapshot); }
     late.extend(vec![Op::Claim { sender: 2 }, Op::Claim { sender: 2 }, Op::Claim { sender: 1 }, Op::Claim { sender: 1 }]);
     v.push(("late_joiner_beyond_claim_cap", c.clone(), late));
+    // exactly EPOCH_CLAIM_CAP (100) unclaimed epochs: the claim must cover all of them (and equal the query)
+    let c = cfg_base(3, 0);
+    let mut exact: Vec<Op> = vec![flow(&c, 3, 1, 13_000_000, Some(131)), open_pos(&c, 1, 1000, 86_400), open_pos(&c, 2, 500, 86_400),
+                                  Op::NewEpoch, Op::Snapshot, Op::Claim { sender: 1 }];
+    for _ in 0..100 { exact.push(Op::NewEpoch); exact.push(Op::Snapshot); }
+    exact.extend(vec![Op::Claim { sender: 1 }, Op::Claim { sender: 1 }]);
+    v.push(("exactly_cap_unclaimed_epochs", c.clone(), exact));
     // (iii) claim after a close in the same epoch writes the stale weight back: weight without stake from then on
     let c = cfg_base(3, 0);
     v.push(("witness_claim_resurrects_weight", c.clone(), vec![
